@@ -36,7 +36,7 @@ type half struct {
 	consumed int64 // bytes ever read
 	failAt   int64 // inject rerr once consumed reaches failAt (<0: never)
 	failErr  error
-	failOnce bool  // the injected error is transient: reported once, then the stream goes on
+	failOnce bool          // the injected error is transient: reported once, then the stream goes on
 	wake     chan struct{} // closed+replaced on every change, for unmanaged readers
 	onFault  func(kind string)
 }
